@@ -113,6 +113,11 @@ class Served:
             log.append(('herr', a, b))
             raise Denied07(data=[a])
 
+        def lerr(a='da', b='db'):
+            # a library exception that is not a protocol error (e.g. raised while the method talks to another service)
+            log.append(('lerr', a, b))
+            raise pjrpc.exceptions.DeserializationError(MARK)
+
         def uerr(a='da', b='db'):
             log.append(('uerr', a, b))
             raise JsonRpcError(4444, 'untyped')
@@ -121,7 +126,7 @@ class Served:
             log.append(('boom', a, b))
             raise ValueError(MARK)
 
-        self.funcs = dict(echo=echo, terr=terr, ferr=ferr, herr=herr, uerr=uerr, boom=boom)
+        self.funcs = dict(echo=echo, terr=terr, ferr=ferr, herr=herr, uerr=uerr, lerr=lerr, boom=boom, _echo=echo, __x=echo)
 
     def register(self, disp, is_async):
         for name, f in self.funcs.items():
@@ -337,7 +342,7 @@ def same_outcome(got, want):
 
 
 # ---- batches -----------------------------------------------------------------------------------------------
-BATCH_NOTATIONS = ['add', 'dunder', 'proxy', 'getitem', 'send']
+BATCH_NOTATIONS = ['add', 'dunder', 'proxy', 'getitem', 'notify+getitem', 'send']
 
 
 def batch_thunk(client, notation, elems):
@@ -364,6 +369,12 @@ def batch_thunk(client, notation, elems):
         return p.call
     if notation == 'getitem':
         return lambda: b[[(m,) + tuple(a) for m, a, kw, c in elems]]
+    if notation == 'notify+getitem':
+        # the notifications are added to the wrapper first, the calls follow through item access on the SAME wrapper
+        for m, a, kw, c in elems:
+            if not c:
+                b.notify(m, *a, **kw)
+        return lambda: b[[(m,) + tuple(a) for m, a, kw, c in elems if c]]
     gen = client.id_gen_impl()
     req = BatchRequest(*[Request(m, list(a) or dict(kw), id=(next(gen) if c else None)) for m, a, kw, c in elems])
 
@@ -388,6 +399,11 @@ def run_batch(case, rec):
     for notation in BATCH_NOTATIONS:
         if notation == 'getitem' and (any(kw for _, _, kw, _ in elems) or not all(c for _, _, _, c in elems)):
             continue      # this notation has positional arguments and calls only
+        if notation == 'notify+getitem':
+            kinds_ = [c for _, _, _, c in elems]
+            # applicable when all notifications precede the calls, there is at least one of each, calls are positional
+            if not (False in kinds_ and True in kinds_ and kinds_ == sorted(kinds_) and not any(kw for _, _, kw, c in elems if c)):
+                continue
 
         def once(env):
             Rnd.env, Rnd.counter = env, 0
@@ -461,7 +477,7 @@ def gen_cases(ctx):
     for pair in pairs:
         for idgen in IDGENS:
             for strict in (True, False):
-                for method in ('echo', 'terr', 'ferr', 'herr', 'uerr', 'boom'):
+                for method in ('echo', 'terr', 'ferr', 'herr', 'uerr', 'lerr', 'boom', '_echo', '__x'):
                     for shape in ARGSHAPES:
                         for vi in (range(len(VALS)) if shape != 'none' else [0]):
                             if idgen not in ('sequential', 'sequential0', 'randint12') and vi > 1:
